@@ -917,6 +917,73 @@ pub fn run_c06(ctx: &Ctx) -> Report {
         rep.require("null_cells_compared", 100);
         rep.require("dates_compared", 10_000);
     }
+    // ---- values behind a long reply: a resultset of 250..254 or 506..510 rows (its packet count passes a
+    //      multiple of 256, where the sequence id is back at the reply's first id), then a second
+    //      query with one row of mixed values - which must decode to what was written, not to an
+    //      empty result or to the answer of another command
+    let longs: Vec<usize> = if ctx.miri { vec![2] } else { vec![250, 251, 252, 253, 254, 506, 507, 508, 509, 510] };
+    let r = par_cases(ctx, "C06", "behind-a-long-reply", longs.len() as u64 * 2, |rng, i, rep| {
+        let nrows = longs[i as usize / 2];
+        let ncols = 1 + (i as usize % 2) * 2;
+        let cols1: Vec<Column> = (0..ncols).map(|c| Column { table: "t".into(), column: format!("c{}", c), coltype: ColumnType::MYSQL_TYPE_LONG, colflags: ColumnFlags::empty() }).collect();
+        let mut ops1 = vec![QOp::Start(0)];
+        for k in 0..nrows {
+            ops1.push(QOp::Row((0..ncols).map(|c| Cell::val(V::I32((k * 7 + c) as i32))).collect(), RowForm::Owned));
+        }
+        ops1.push(QOp::Finish);
+        let vals = vec![V::I64(-43 - i as i64), V::Str(format!("value #{}", i)), V::Null, V::Str(String::new()), V::F64(1.5 + i as f64)];
+        let cols2: Vec<Column> = (0..vals.len()).map(|c| Column { table: "t".into(), column: format!("v{}", c), coltype: ColumnType::MYSQL_TYPE_VAR_STRING, colflags: ColumnFlags::empty() }).collect();
+        let ops2 = vec![QOp::Start(0), QOp::Row(vals.iter().map(|v| Cell::val(v.clone())).collect(), RowForm::Owned), QOp::Finish];
+        let cmds = vec![Cmd::query(b"long"), Cmd::query(b"values"), Cmd::ping()];
+        let scripts = vec![Script::Q(QProg { colsets: vec![cols1], ops: ops1, on_err: OnErr::Drop }), Script::Q(QProg { colsets: vec![cols2], ops: ops2, on_err: OnErr::Drop })];
+        let obs = run_case(&varied_case(rng, cmds, scripts));
+        rep.evaluations += 1;
+        if harness_panic(&obs, rep) {
+            return;
+        }
+        let packets = 1 + ncols + 1 + nrows + 1;
+        rep.counters.class(format!("values behind a reply of {} packets", packets));
+        let d = || J::obj().set("rows_of_the_first_reply", nrows).set("columns_of_the_first_reply", ncols).set("packets_of_the_first_reply", packets).set("outcome", obs.outcome.describe());
+        if i == 0 {
+            rep.sample(d());
+        }
+        let dec = match decode_output(&obs) {
+            Ok(x) => x.2,
+            Err(e) => {
+                rep.violations.push(viol("C06", "C06 bad-framing".into(), e, d()));
+                return;
+            }
+        };
+        let rows_of = |k: usize| -> Option<Vec<Vec<u8>>> {
+            match dec.resps.get(k) {
+                Some(Resp::Parts(parts)) => match parts.first() {
+                    Some(Part::Rows { rows, .. }) if parts.len() == 1 => Some(rows.clone()),
+                    _ => None,
+                },
+                _ => None,
+            }
+        };
+        match rows_of(2) {
+            Some(r1) if r1.len() == nrows => {}
+            other => {
+                rep.violations.push(viol("C06", "C06 long-reply-row-count".into(), format!("the client sees {:?} rows of the {}-row resultset", other.map(|r| r.len()), nrows), d()));
+                return;
+            }
+        }
+        let Some(r2) = rows_of(3) else {
+            rep.violations.push(viol("C06", "C06 values-behind-long-reply-lost".into(), format!("the query behind a reply of {} packets is not answered by its resultset: {:?}", packets, dec.stop), d()));
+            return;
+        };
+        let cells = r2.first().and_then(|raw| wire::decode_text_row(raw, vals.len()).ok());
+        let ok = r2.len() == 1 && cells.as_ref().map(|c| c.iter().zip(vals.iter()).all(|(g, v)| text_cell_matches(g, &sem_of(v)))).unwrap_or(false);
+        if !ok {
+            rep.violations.push(viol("C06", "C06 values-behind-long-reply-differ".into(), format!("behind a reply of {} packets the client decodes {:?} rows / {:?}", packets, r2.len(), cells.map(|c| c.iter().map(|x| x.as_ref().map(|b| show(b))).collect::<Vec<_>>())), d()));
+            return;
+        }
+        rep.counters.inc("value_rows_behind_long_replies_compared");
+    });
+    rep.merge(r);
+
     // ---- backends that go on after a refused writer call (props/recover.rs): the cells that were
     //      accepted arrive with their values (text rows)
     rep.merge(super::recover::group(ctx, "C06", super::recover::Clause::Values, Some(false), 1500, 30_000));
